@@ -36,6 +36,7 @@ def detect_and_initialize(ex, name, args):
 
 STATS = {}
 FULL_QUERY_NODE_LIMIT = 400
+BUILD_BUDGET_S = 45
 USE_CONE_MERGE = False   # substitution + rebuild is slower than the lockstep walk on heavily fragmented (ARX) terms
 _CONGR_CACHE = {}
 
@@ -77,7 +78,7 @@ def solve_neq(pairs, pc=(), timeout_s=120, assumptions=None, congruence=True):
         ck = (tuple(diff), pc_core)
         if ck in _CONGR_CACHE:
             STATS['congruence_cached'] = STATS.get('congruence_cached', 0) + 1
-            return 'unsat', None, time.time() - t0
+            return ('unsat' if _CONGR_CACHE[ck] else 'unknown'), None, time.time() - t0
         # sat side first: the strengthened query "inputs = corner / seed-derived constants" (any model of it is a model
         # of the original query); a differing crypto core differs on almost every input, a boundary slip on a corner
         model = congr.simulate_difference(diff, pc)
@@ -121,6 +122,8 @@ def solve_neq(pairs, pc=(), timeout_s=120, assumptions=None, congruence=True):
                 STATS['congruence'] = STATS.get('congruence', 0) + 1
                 STATS['residuals'] = STATS.get('residuals', 0) + len(residual)
                 return 'unsat', None, time.time() - t0
+        # remember the failure: the other arms that produced the same terms need not repeat the (budgeted) walk
+        _CONGR_CACHE[ck] = False
     if not congruence:
         _names, _n = T.support([x for p in diff for x in p])
         if _n > 4 * FULL_QUERY_NODE_LIMIT:
@@ -140,7 +143,15 @@ def solve_neq(pairs, pc=(), timeout_s=120, assumptions=None, congruence=True):
     if assumptions:
         for name, w, val in assumptions:
             s.add(z3.BitVec(name, w) == val)
-    s.add(z3.Or(*[T.z3val(g) != T.z3val(e) for g, e in diff]))
+    disj = []
+    tb = time.time()
+    for g, e in diff:
+        disj.append(T.z3val(g) != T.z3val(e))
+        if time.time() - tb > BUILD_BUDGET_S:
+            # building the formula alone exceeds the budget: the query is out of reach, do not pretend otherwise
+            STATS['query_build_aborted'] = STATS.get('query_build_aborted', 0) + 1
+            return 'unknown', None, time.time() - t0
+    s.add(z3.Or(*disj))
     r = s.check()
     dt = time.time() - t0
     if r == z3.unsat:
@@ -327,10 +338,26 @@ class Run:
                 return r_[0], r_[1]
             if os.environ.get('VERIF_DEBUG'):
                 print('DEBUG equal_spec %s: not identical (%d/%d), simulate took %.1fs' % (name, sum(1 for g, e in pairs if g == e), len(pairs), time.time() - t0), flush=True)
-            na, sa, nq = congr.discover_aliases(diff, pc_core if len(pc_core) != len(pc) else pc, solve=_solve, both_sides=impl_fn is not None)
-            if os.environ.get('VERIF_DEBUG'):
-                print('DEBUG discovered %d node + %d slice aliases with %d queries, %.1fs' % (len(na), sum(len(v) for v in sa.values()), nq, time.time() - t0), flush=True)
-            if na or sa:
+            na, sa, nq = {}, {}, 0
+            cur = diff
+            # alias discovery is iterated: installing a lemma changes the shape of the rebuilt terms (e.g. a counter whose upper
+            # half is known to be zero), which can expose the next small-cone equality
+            for rnd in range(4):
+                na1, sa1, nq1 = congr.discover_aliases(cur, pc_core if len(pc_core) != len(pc) else pc, solve=_solve, both_sides=impl_fn is not None)
+                nq += nq1
+                na1 = {k: v for k, v in na1.items() if k not in na}
+                if os.environ.get('VERIF_DEBUG'):
+                    print('DEBUG round %d: discovered %d node + %d slice aliases with %d queries, %.1fs' % (rnd, len(na1), sum(len(v) for v in sa1.values()), nq1, time.time() - t0), flush=True)
+                    for k_, v_ in na1.items():
+                        print('   alias node', k_, str(T.nodes[k_])[:120], '->', T.show(v_)[:120])
+                    for k_, v_ in sa1.items():
+                        print('   alias slice', k_, str(T.nodes[k_])[:120], '->', [(a_, m_, T.show(x_)[:80]) for a_, m_, x_ in v_])
+                if not na1 and not sa1:
+                    break
+                na.update(na1)
+                for k, v in sa1.items():
+                    if k not in na:
+                        sa.setdefault(k, []).extend(x for x in v if x not in sa.get(k, []))
                 T.ALIAS_NODE.update(na)
                 for k, v in sa.items():
                     T.ALIAS_SLICE.setdefault(k, []).extend(v)
@@ -347,15 +374,6 @@ class Run:
                 if os.environ.get('VERIF_DEBUG'):
                     print('DEBUG alias rebuild: lemmas=%d+%d queries=%d identical %d/%d  t=%.1fs' % (len(na), sum(len(v) for v in sa.values()), nq,
                           sum(1 for g, e in pairs2 if g == e), len(pairs2), time.time() - t0), flush=True)
-                if os.environ.get('VERIF_DEBUG') and not all(g == e for g, e in pairs2):
-                    ok_, res_ = congr.reduce_pairs([(g, e) for g, e in pairs2 if g != e], 0, pc)
-                    print('DEBUG after rebuild: walk ok=%s residuals=%d' % (ok_, len(res_)))
-                    for a_, b_ in res_[:8]:
-                        print('   ', T.show(a_)[:140], ' ==? ', T.show(b_)[:140])
-                        for v_ in (a_, b_):
-                            for sg_ in v_:
-                                for nid_, lo_ in sg_[0][:4]:
-                                    print('        node', nid_, str(T.nodes[nid_])[:260])
                 if all(g == e for g, e in pairs2):
                     ob = Obligation(name)
                     ob.key = key or name
@@ -369,6 +387,7 @@ class Run:
                         self.samples.append({'obligation': name, 'pairs': len(pairs), 'identical': ob.n_identical, 'status': 'unsat', 'how': ob.detail})
                     return self.add(ob)
                 pairs = pairs2
+                cur = [(g, e) for g, e in pairs2 if g != e]
         return self.equal(name, pairs, pc, timeout_s, key)
 
     def equal(self, name, pairs, pc=(), timeout_s=120, key=None):
